@@ -987,6 +987,77 @@ namespace occa {
       }
     }
 
+    // In #if and #elif all signed integer types act as intmax_t and all
+    //   unsigned integer types as uintmax_t: the type of a literal is found
+    //   from its spelling in that 64-bit world (unsigned only with a u/U
+    //   suffix or when the value does not fit in intmax_t)
+    static primitive preprocessorInteger(const primitive &value,
+                                         const std::string &strValue) {
+      if (value.type & primitiveType::bool_) {
+        return primitive((int64_t) value.to<bool>());
+      }
+      if (!(value.type & primitiveType::isInteger)) {
+        return value;
+      }
+
+      const char *c = strValue.c_str();
+      int base = 10;
+      if (c[0] == '0') {
+        const char C = uppercase(c[1]);
+        if (C == 'X') {
+          base = 16;
+          c += 2;
+        } else if (C == 'B') {
+          base = 2;
+          c += 2;
+        } else {
+          base = 8;
+        }
+      }
+
+      uint64_t magnitude = 0;
+      bool hasDigits = false;
+      while (true) {
+        const char C = uppercase(*c);
+        int digit = -1;
+        if (('0' <= C) && (C <= '9')) {
+          digit = (C - '0');
+        } else if (('A' <= C) && (C <= 'F')) {
+          digit = 10 + (C - 'A');
+        }
+        if ((digit < 0) || (digit >= base)) {
+          break;
+        }
+        magnitude = (magnitude * base) + digit;
+        hasDigits = true;
+        ++c;
+      }
+
+      bool isUnsigned = false;
+      while (*c != '\0') {
+        const char C = uppercase(*c);
+        if (C == 'U') {
+          isUnsigned = true;
+        } else if (C != 'L') {
+          break;
+        }
+        ++c;
+      }
+
+      if (!hasDigits || (*c != '\0')) {
+        // Not spelled as an integer literal, widen the value we have
+        if (value.type & primitiveType::isUnsigned) {
+          return primitive(value.to<uint64_t>());
+        }
+        return primitive(value.to<int64_t>());
+      }
+
+      if (isUnsigned || (magnitude >> 63)) {
+        return primitive(magnitude);
+      }
+      return primitive((int64_t) magnitude);
+    }
+
     bool preprocessor_t::lineIsTrue(identifierToken &directive,
                                     bool &isTrue) {
       tokenVector lineTokens;
@@ -996,10 +1067,16 @@ namespace occa {
       const int tokenCount = (int) lineTokens.size();
       for (int i = 0; i < tokenCount; ++i) {
         token_t *token = lineTokens[i];
+        if (token->type() & tokenType::primitive) {
+          primitiveToken &pToken = token->to<primitiveToken>();
+          pToken.value = preprocessorInteger(pToken.value,
+                                             pToken.strValue);
+          continue;
+        }
         if (!(token->type() & tokenType::identifier)) {
           continue;
         }
-        lineTokens[i] = new primitiveToken(token->origin, 0, "0");
+        lineTokens[i] = new primitiveToken(token->origin, (int64_t) 0, "0");
         delete token;
       }
 
